@@ -7,7 +7,7 @@
     of the status: result of the API call, what the parent / the publication
     server held), the status after the step, and, for the oracle, the result of
     the API call, the content the publication server holds per publisher and the
-    issues reported by [get_ca_issues].
+    issues reported by [get_ca_issues], by the view over all CAs and by the two text reports.
 
     [agrees]: the model, run on the observed pre-state with the observed
     operations, ends in the observed post-state and predicts the observed result.
@@ -17,6 +17,9 @@ From Coq Require Import Ascii String.
 From KV Require Import base.Tac status.Status.
 Open Scope N_scope.
 
+(** an issues report as observed: repository issue (error label), parent issues (parent, error label) *)
+Definition obs_issues : Type := option N * list (str * N).
+
 Record case := mkCase {
   c_pre : state;
   c_ops : list op;
@@ -24,7 +27,11 @@ Record case := mkCase {
   c_res : option xres;                              (* result of the API call, if the step is a synchronisation *)
   c_cas : list str;                                 (* CAs that exist after the step *)
   c_srv : list (str * list file);                   (* publisher -> files held by the publication server after the step *)
-  c_issues : list (str * (option N * list (str * N)))  (* get_ca_issues after the step: repo issue, parent issues *)
+  c_issues : list (str * obs_issues);               (* get_ca_issues after the step, per CA: repo issue, parent issues *)
+  c_bulk : list (str * obs_issues);                 (* the view over all CAs after the step (GET /api/v1/bulk/cas/issues):
+                                                       the CAs it lists, with the issues it shows for them *)
+  c_text : list (str * bool);                       (* per CA: the text report of its issues says "no issues found" *)
+  c_bulk_text : bool                                (* the text report of the issues of all CAs says "no issues found" *)
 }.
 
 (** * Equality up to the orders that are arbitrary in the implementation *)
@@ -81,6 +88,20 @@ Definition kv_eqb (a b : kv) : bool := forallb (scope_eqb a b) (map fst a ++ map
 
 Definition state_eqb (a b : state) : bool := cache_eqb a b && kv_eqb (store a) (store b).
 
+(** an observed issues report against an [issues] value of the model: same repository issue, same parent issues
+    (the order of the parents is the iteration order of a hash map: compared as finite maps, no parent twice) *)
+Definition obs_issues_eqb (o : obs_issues) (i : issues) : bool :=
+  opt_eqb N.eqb (fst o) (i_repo i)
+  && (N.of_nat (length (snd o)) =? N.of_nat (length (i_parents i)))
+  && forallb (fun pe => opt_eqb N.eqb (aget (fst pe) (snd o)) (Some (snd pe))) (i_parents i)
+  && forallb (fun pe => opt_eqb N.eqb (aget (fst pe) (i_parents i)) (Some (snd pe))) (snd o).
+
+(** an observed view over all CAs against the model's: the same CAs, each once, each with the same issues *)
+Definition bulk_eqb (obs : list (str * obs_issues)) (m : list (str * issues)) : bool :=
+  (N.of_nat (length obs) =? N.of_nat (length m))
+  && forallb (fun x => match aget (fst x) obs with Some o => obs_issues_eqb o (snd x) | None => false end) m
+  && forallb (fun x => is_some (aget (fst x) m)) obs.
+
 (** * Correspondence *)
 (** Result of the API call as the model predicts it (for the last operation of a step). *)
 Definition op_result (st : state) (o : op) : option xres :=
@@ -103,6 +124,8 @@ Definition agrees (c : case) : bool :=
   | Some (st', r) =>
       state_eqb st' (c_post c)
       && match c_res c with Some x => opt_eqb xres_eqb r (Some x) | None => true end
+      (* the observed view over all CAs is [bulk_issues] of the modelled statuses *)
+      && bulk_eqb (c_bulk c) (bulk_view st' (c_cas c))
   | None => false
   end.
 
@@ -195,21 +218,39 @@ Definition ok_child (c : case) : bool :=
   | _ => true
   end.
 
-(** the issues view reports exactly the failures of the status view *)
-Definition failure_of (o : option xres) : option N := match o with Some (XFail e) => Some e | _ => None end.
+(** the issues view of one CA reports exactly the failures of the status view: [issues_of] of the reported status
+    (theorem issues_list_exactly_failures) *)
 Definition ok_issues (c : case) : bool :=
   forallb (fun ca =>
     match aget ca (c_issues c) with
-    | Some (ri, pis) =>
-        opt_eqb N.eqb ri (failure_of (r_last (view_repo (c_post c) ca)))
-        && forallb (fun pe => opt_eqb N.eqb (aget (fst pe) pis) (failure_of (p_last (snd pe))))
-                   (s_parents (ca_view (c_post c) ca))
-        && forallb (fun pi => match view_parent (c_post c) ca (fst pi) with
-                              | Some x => opt_eqb N.eqb (failure_of (p_last x)) (Some (snd pi))
-                              | None => false
-                              end) pis
+    | Some o => obs_issues_eqb o (issues_view (c_post c) ca)
     | None => false
     end) (c_cas c).
+
+(** the view over all CAs lists a CA exactly when its reported status shows a failed repository exchange or a failed
+    exchange with at least one parent, with exactly those failures (theorems bulk_lists_exactly_failing,
+    bulk_view_lists_exactly_failing) *)
+Definition ok_bulk (c : case) : bool := bulk_eqb (c_bulk c) (bulk_view (c_post c) (c_cas c)).
+
+(** the two views agree for every CA: a CA with an empty report is not listed, every other CA is listed with the
+    report the view of that CA gives; nothing else is listed (theorem bulk_agrees_with_single) *)
+Definition obs_as_issues (o : obs_issues) : issues := mkI (fst o) (snd o).
+Definition ok_bulk_single (c : case) : bool :=
+  forallb (fun ca =>
+    match aget ca (c_issues c) with
+    | Some o =>
+        if issues_empty (obs_as_issues o) then negb (is_some (aget ca (c_bulk c)))
+        else match aget ca (c_bulk c) with Some b => obs_issues_eqb b (obs_as_issues o) | None => false end
+    | None => false
+    end) (c_cas c)
+  && forallb (fun x => existsb (str_eqb (fst x)) (c_cas c)) (c_bulk c)
+  && (N.of_nat (length (c_bulk c)) =? N.of_nat (length (filter (fun ca => is_some (aget ca (c_bulk c))) (c_cas c)))).
+
+(** "no issues found" is said exactly when there are none: per CA (theorem text_no_issues_iff) and for all CAs
+    (theorem bulk_text_no_issues_iff) *)
+Definition ok_text (c : case) : bool :=
+  forallb (fun ca => opt_eqb Bool.eqb (aget ca (c_text c)) (Some (says_no_issues (issues_view (c_post c) ca)))) (c_cas c)
+  && Bool.eqb (c_bulk_text c) (bulk_says_no_issues (bulk_view (c_post c) (c_cas c))).
 
 (** unchanged by a restart *)
 Definition ok_restart (c : case) : bool :=
@@ -237,7 +278,7 @@ Definition ok_removed (c : case) : bool :=
 Definition c19_ok (c : case) : bool :=
   ok_parent_result c && ok_repo_result c && ok_entitlements c && ok_published c && ok_published_failure c
   && ok_success_flag c && ok_child c
-  && ok_issues c && ok_restart c && ok_removed c.
+  && ok_issues c && ok_bulk c && ok_bulk_single c && ok_text c && ok_restart c && ok_removed c.
 
 (** Indices of cases on which a predicate fails. *)
 Fixpoint failing_from {A} (f : A -> bool) (i : N) (l : list A) : list N :=
